@@ -156,19 +156,25 @@ let () =
       let seq = ref (spec_seq_after Z0 Z0 false (List.init nsrv (fun j -> sconf (Printf.sprintf "10.0.0.%d" (j + 1))))) in
       let hist = ref [] in
       let tok_req = Hashtbl.create 16 in        (* token -> request *)
-      let id_tok = Hashtbl.create 16 in         (* DNS id -> token *)
-      let tx_tok = Hashtbl.create 16 in         (* x index -> token *)
+      let tx_req = Hashtbl.create 16 in         (* x index -> question as transmitted *)
       let pending_note = ref None in
+      let blind = ref false in
       let fails = ref [] in
       let n_hit = ref 0 and n_aged = ref 0 and n_neg = ref 0 and n_miss = ref 0 and n_ins = ref 0 and n_flush = ref 0 and n_tcp = ref 0 and n_gaihit = ref 0 in
+      (* the question of every transmission is taken from the TX line itself (qname, qtype, qclass, rd):
+         this also covers the probes of failed servers (ares_probe_failed_server re-asks the question under
+         an id of its own; their answers are cached like any other) *)
       let note_tx l =
         if starts l "TX " then
           (match words l with
            | _ :: x :: _ ->
-             let xi = (try int_of_string (String.sub x 1 (String.length x - 1)) with _ -> -1) in
-             (match kv l "id" with
-              | Some id -> (match Hashtbl.find_opt id_tok id with Some t -> Hashtbl.replace tx_tok xi t | None -> ())
-              | None -> ());
+             let xi = ios (String.sub x 1 (String.length x - 1)) in
+             (match kv l "qname", kv l "qtype", kv l "qclass" with
+              | Some qn, Some qt, Some qc ->
+                Hashtbl.replace tx_req xi
+                  { rq_opcode = Z0; rq_flags = (if kv l "rd" = Some "1" then aRES_FLAG_RD else Z0);
+                    rq_qs = [ { qn_type = z_of_int (ios qt); qn_class = z_of_int (ios qc); qn_name = bytes_of_string qn } ] }
+              | _ -> ());
              if kv l "proto" = Some "tcp" then incr n_tcp
            | _ -> ()) in
       List.iteri (fun n op ->
@@ -184,14 +190,13 @@ let () =
                (match words l with
                 | _ :: x :: _ ->
                   let xi = (try int_of_string (String.sub x 1 (String.length x - 1)) with _ -> -1) in
-                  (match Hashtbl.find_opt tx_tok xi, !pending_note with
-                   | Some t, Some rs ->
-                     (match Hashtbl.find_opt tok_req t with
-                      | Some rq -> incr n_ins; hist := OIns (z_of_int (!clock / 1000), rq, rs) :: !hist
-                      | None -> ())
-                   | _ -> ())
-                | _ -> ())) ls
-         | "run" :: _ | "proc" :: _ -> List.iter note_tx ls
+                  (match Hashtbl.find_opt tx_req xi, !pending_note with
+                   | Some rq, Some rs -> incr n_ins; hist := OIns (z_of_int (!clock / 1000), rq, rs) :: !hist
+                   | _ -> blind := true)     (* an answer the driver was not told about: nothing can be judged from here on *)
+                | _ -> ())) ls;
+           pending_note := None
+         | "rsp" :: _ | "raw" :: _ | "rawfrom" :: _ -> if List.exists (fun l -> starts l "RSP " || starts l "RAW ") ls then blind := true
+         | "run" :: _ | "proc" :: _ | "proct" :: _ | "procsel" :: _ -> List.iter note_tx ls
          | "setservers" :: csv :: _ ->
            let items = if csv = "-" then [] else split_on ',' csv in
            let sq = spec_seq_after Z0 Z0 false (List.map sconf items) in
@@ -204,7 +209,7 @@ let () =
             | Some (t, rq) ->
               Hashtbl.replace tok_req t rq;
               let txs = List.filter (fun l -> starts l "TX ") ls in
-              List.iter (fun l -> (match kv l "id" with Some id -> Hashtbl.replace id_tok id t | None -> ()); note_tx l) txs;
+              List.iter note_tx txs;
               let cbs = List.filter (fun l -> starts l (Printf.sprintf "CB t%d " t)) ls in
               if txs = [] then begin
                 match cbs with
@@ -260,7 +265,7 @@ let () =
         else Printf.sprintf "chan08%s%s%s%s%s%s%s" (if !n_hit > 0 then "+hit" else "") (if !n_aged > 0 then "+aged" else "") (if !n_neg > 0 then "+neghit" else "")
             (if !n_gaihit > 0 then "+gaihit" else "") (if !n_miss > 0 then "+tx" else "") (if !n_flush > 0 then "+flush" else "") (if !n_tcp > 0 then "+tcp" else "") in
       Printf.printf "CASE %d %s\n" k cls;
-      if not monitor_seen then begin
+      if not monitor_seen && not !blind then begin
         let seen = Hashtbl.create 4 in
         List.iter (fun (kind, d) ->
           if not (Hashtbl.mem seen kind) then begin
